@@ -30,6 +30,9 @@ def run(ctx):
     ctx.each(r18c, ctx, repo)
     ctx.each(r18d, ctx, repo)
     ctx.each(r18e, ctx, repo)
+    from . import c20
+
+    ctx.each(c20.r20i, ctx, repo)  # 'improperly nested cascades' are among the documented rules a loader must refuse
 
 
 # ---------------------------------------------------------------------------------------------- R18a
